@@ -15,16 +15,23 @@ struct M {
     not_before: u64,
 }
 
-/// symbols: 0..16 = sender (0..4) x action (nominate a, nominate b, revoke, accept); 16.. = waits
-const NSYM: usize = 19;
+/// symbols: 0..20 = sender (0..4) x action (nominate a, nominate b, revoke, accept, nominate self);
+/// 20..23 = waits; 23 = CircuitBreaker by the current admin, 24 = ResumeContract by the current admin
+/// (staking only; they must not influence the handover)
+const NSYM: usize = 25;
+
+fn alphabet(core: bool) -> Vec<usize> {
+    (0..NSYM).filter(|s| !core || (*s < 23 && (*s >= 20 || *s % 5 != 4))).collect()
+}
 
 fn sym_name(s: usize) -> String {
     let who = ["p0", "a", "b", "x"];
-    let act = ["nominate(a)", "nominate(b)", "revoke", "accept"];
-    if s < 16 {
-        format!("{}:{}", who[s / 4], act[s % 4])
-    } else {
-        ["wait(7d-1s)", "wait(1s)", "wait(7d)"][s - 16].to_string()
+    let act = ["nominate(a)", "nominate(b)", "revoke", "accept", "nominate(self)"];
+    match s {
+        0..=19 => format!("{}:{}", who[s / 5], act[s % 5]),
+        20..=22 => ["wait(7d-1s)", "wait(1s)", "wait(7d)"][s - 20].to_string(),
+        23 => "admin:halt".into(),
+        _ => "admin:resume".into(),
     }
 }
 
@@ -36,15 +43,26 @@ struct Ctx {
 }
 
 fn exec_sym(ctx: &Ctx, w: &mut World, m: &mut M, s: usize) -> Option<String> {
-    if s >= 16 {
-        w.advance([WEEK - 1, 1, WEEK][s - 16]);
+    if (20..23).contains(&s) {
+        w.advance([WEEK - 1, 1, WEEK][s - 20]);
         return None;
     }
-    let sender = s / 4;
-    let act = s % 4;
+    if s >= 23 {
+        if !ctx.treasury {
+            let msg = if s == 23 { json!({"circuit_breaker": {}}) } else { json!({"resume_contract": {"total_native_token": "0", "total_liquid_stake_token": "0", "total_reward_amount": "0"}}) };
+            let r = w.exec(&ctx.who[m.admin], &ctx.contract, &msg.to_string(), &[]);
+            if !r.panics.is_empty() {
+                return Some(format!("{} panicked: {:?}", sym_name(s), r.panics));
+            }
+        }
+        return None;
+    }
+    let sender = s / 5;
+    let act = s % 5;
     let msg = match act {
         0 => json!({"transfer_ownership": {"new_owner": ctx.who[1]}}),
         1 => json!({"transfer_ownership": {"new_owner": ctx.who[2]}}),
+        4 => json!({"transfer_ownership": {"new_owner": ctx.who[sender]}}),
         2 => json!({"revoke_ownership_transfer": {}}),
         _ => json!({"accept_ownership": {}}),
     };
@@ -52,9 +70,13 @@ fn exec_sym(ctx: &Ctx, w: &mut World, m: &mut M, s: usize) -> Option<String> {
     let r = w.exec(&ctx.who[sender], &ctx.contract, &msg.to_string(), &[]);
     // reference machine
     let want = match act {
-        0 | 1 => {
+        0 | 1 | 4 => {
             if sender == m.admin {
-                m.nominee = Some(if act == 0 { 1 } else { 2 });
+                m.nominee = Some(match act {
+                    0 => 1,
+                    1 => 2,
+                    _ => sender,
+                });
                 m.not_before = now + WEEK;
                 true
             } else {
@@ -155,7 +177,7 @@ pub fn run_seq(treasury: bool, seq: &[usize]) -> Vec<String> {
     out
 }
 
-fn dfs(ctx: &Ctx, w: &World, m: &M, depth: usize, max: usize, path: &mut Vec<usize>, acc: &mut Acc, viol: &mut Vec<(Vec<usize>, String)>, nodes: &mut u64) {
+fn dfs(ctx: &Ctx, alpha: &[usize], w: &World, m: &M, depth: usize, max: usize, path: &mut Vec<usize>, acc: &mut Acc, viol: &mut Vec<(Vec<usize>, String)>, nodes: &mut u64) {
     if depth == max {
         acc.count("c12:sequences");
         if let Some(e) = check_admin(ctx, w, m) {
@@ -164,7 +186,7 @@ fn dfs(ctx: &Ctx, w: &World, m: &M, depth: usize, max: usize, path: &mut Vec<usi
         acc.seen("C12", &format!("{}|{:?}|{:?}|{}", ctx.treasury, m.admin, m.nominee, (w.now_s() as i128 - m.not_before as i128).clamp(-2, 2)));
         return;
     }
-    for s in 0..NSYM {
+    for &s in alpha {
         // two waits in a row add nothing new below depth; keep them anyway for exactness of the bound
         let mut w2 = w.clone();
         let mut m2 = m.clone();
@@ -184,11 +206,11 @@ fn dfs(ctx: &Ctx, w: &World, m: &M, depth: usize, max: usize, path: &mut Vec<usi
                         viol.push((path.clone(), e));
                     }
                 }
-                if s % 4 == 3 && s < 16 {
+                if s < 20 && s % 5 == 3 {
                     let d = (w.now_s() as i128 - m.not_before as i128).clamp(-2, 2);
                     acc.count(&format!("c12:accept_at_{d}"));
                 }
-                dfs(ctx, &w2, &m2, depth + 1, max, path, acc, viol, nodes);
+                dfs(ctx, alpha, &w2, &m2, depth + 1, max, path, acc, viol, nodes);
             }
         }
         path.pop();
@@ -201,6 +223,8 @@ pub fn run(a: &Args, acc: &mut Acc) {
     let nshards = a.u64("nshards", 1);
     let depth = a.u64("depth", 4) as usize;
     let random = a.u64("random", 200);
+    let core = a.s("alphabet", "full") == "core";
+    let alpha = alphabet(core);
     let replay_dir = a.s("replay-dir", "/verif/replays");
     let mut viol: Vec<(bool, Vec<usize>, String)> = vec![];
     // exhaustive: first symbol partitions the work over the shards
@@ -210,7 +234,7 @@ pub fn run(a: &Args, acc: &mut Acc) {
         let mut nodes = 0u64;
         // the first two symbols partition the work over the shards
         let mut job = 0u64;
-        for first in 0..NSYM {
+        for &first in &alpha {
             let mut w1 = w.clone();
             let mut m1 = m.clone();
             if let Some(e) = exec_sym(&ctx, &mut w1, &mut m1, first) {
@@ -222,7 +246,7 @@ pub fn run(a: &Args, acc: &mut Acc) {
             if depth < 2 {
                 continue;
             }
-            for second in 0..NSYM {
+            for &second in &alpha {
                 job += 1;
                 if job % nshards != shard {
                     continue;
@@ -234,7 +258,7 @@ pub fn run(a: &Args, acc: &mut Acc) {
                 nodes += 1;
                 match exec_sym(&ctx, &mut w2, &mut m2, second) {
                     Some(e) => v.push((path.clone(), e)),
-                    None => dfs(&ctx, &w2, &m2, 2, depth, &mut path, acc, &mut v, &mut nodes),
+                    None => dfs(&ctx, &alpha, &w2, &m2, 2, depth, &mut path, acc, &mut v, &mut nodes),
                 }
                 for (p, e) in v {
                     viol.push((treasury, p, e));
@@ -243,13 +267,13 @@ pub fn run(a: &Args, acc: &mut Acc) {
         }
         acc.add("c12:nodes", nodes);
     }
-    acc.notes.push(format!("exhaustive over all {NSYM}^{depth} sequences of length {depth} per contract (sharded by the first two symbols)"));
+    acc.notes.push(format!("exhaustive over all {}^{depth} sequences of length {depth} per contract ({} alphabet, sharded by the first two symbols)", alpha.len(), if core { "core" } else { "full" }));
     // random long sequences, biased to the deadline
     let mut rng = Rng::new(seed ^ (shard + 1).wrapping_mul(0x9E3779B97F4A7C15) ^ 0xC12);
     for _ in 0..random {
         let treasury = rng.chance(1, 2);
         let n = rng.range(6, 40) as usize;
-        let seq: Vec<usize> = (0..n).map(|_| if rng.chance(1, 3) { 16 + rng.below(3) as usize } else { rng.below(16) as usize }).collect();
+        let seq: Vec<usize> = (0..n).map(|_| if rng.chance(1, 3) { 20 + rng.below(3) as usize } else { rng.below(NSYM as u64) as usize }).collect();
         let v = run_seq(treasury, &seq);
         acc.count("c12:random_sequences");
         acc.seen("C12", &format!("rnd|{treasury}|{:?}", &seq[..6.min(seq.len())]));
@@ -258,7 +282,7 @@ pub fn run(a: &Args, acc: &mut Acc) {
         }
     }
     if acc.samples.is_empty() {
-        acc.samples.push(json!({"lane": "c12", "sequence": (0..depth).map(|i| sym_name((i * 7 + 3) % NSYM)).collect::<Vec<_>>(), "alphabet": (0..NSYM).map(sym_name).collect::<Vec<_>>()}));
+        acc.samples.push(json!({"lane": "c12", "sequence": (0..depth).map(|i| sym_name(alpha[(i * 7 + 3) % alpha.len()])).collect::<Vec<_>>(), "alphabet": alpha.iter().map(|s| sym_name(*s)).collect::<Vec<_>>()}));
     }
     for (i, (treasury, seq, e)) in viol.iter().enumerate().take(5) {
         let path = format!("{replay_dir}/C12-{seed}-{shard}-{i}.json");
